@@ -82,6 +82,7 @@ type Req struct {
 	AbortAt int    `json:"abort_at"`              // block index before which the handler throws (-1: never)
 	FailW   bool   `json:"fail_write,omitempty"`  // client write error on this request
 	Slow    bool   `json:"slow_client,omitempty"` // slow client: the server task parks in every body write
+	Head    bool   `json:"head,omitempty"`        // sent as HEAD if the handler is a GET route
 }
 
 type W struct {
@@ -167,7 +168,7 @@ func gen(r *verifsim.Rng, tier string) (any, hx.Sched) {
 		kinds = []string{"depth"}
 	}
 	for h := 0; h < nh; h++ {
-		hd := Handler{Method: verifsim.Pick(r, []string{"get", "post"}), Status: r.Intn(2) == 0}
+		hd := Handler{Method: verifsim.Pick(r, []string{"get", "get", "post", "post", "put", "delete"}), Status: r.Intn(2) == 0}
 		nb := 1 + r.Intn(6)
 		for b := 0; b < nb; b++ {
 			bl := Block{Kind: verifsim.Pick(r, kinds), Gate: r.Intn(2) == 0}
@@ -205,6 +206,7 @@ func gen(r *verifsim.Rng, tier string) (any, hx.Sched) {
 	}
 	for i := 0; i < nr; i++ {
 		q := Req{H: r.Intn(nh), X: fmt.Sprintf("v%d", i), K: 1 + r.Intn(5), AbortAt: -1}
+		q.Head = r.Intn(8) == 0
 		q.Slow = r.Intn(3) == 0 || (w.Handlers[q.H].File > 0 && r.Intn(2) == 0)
 		w.Reqs = append(w.Reqs, q)
 	}
@@ -344,8 +346,8 @@ $server = new Server('127.0.0.1', 0);
 		b := main
 		if w.Annot {
 			b = &strings.Builder{}
-			fmt.Fprintf(b, "<?php\nuse Net\\Annotation\\Controller;\nuse Net\\Annotation\\GetMapping;\nuse Net\\Annotation\\PostMapping;\nuse Net\\Annotation\\Route;\nuse Net\\Annotation\\Middleware;\n%s#[Controller]\n#[Route(prefix: \"/a\")]\nclass C11H%d {\n#[%sMapping(path: \"/h%d/{id}\")]\npublic function handle($req, $res) {\n  $out = \"\";\n  $id = $req->header(\"X-Id\");\n  $k = (int)$req->header(\"X-K\");\n",
-				mwAttrs, h, map[string]string{"get": "Get", "post": "Post"}[hd.Method], h)
+			fmt.Fprintf(b, "<?php\nuse Net\\Annotation\\Controller;\nuse Net\\Annotation\\GetMapping;\nuse Net\\Annotation\\PostMapping;\nuse Net\\Annotation\\PutMapping;\nuse Net\\Annotation\\DeleteMapping;\nuse Net\\Annotation\\Route;\nuse Net\\Annotation\\Middleware;\n%s#[Controller]\n#[Route(prefix: \"/a\")]\nclass C11H%d {\n#[%sMapping(path: \"/h%d/{id}\")]\npublic function handle($req, $res) {\n  $out = \"\";\n  $id = $req->header(\"X-Id\");\n  $k = (int)$req->header(\"X-K\");\n",
+				mwAttrs, h, map[string]string{"get": "Get", "post": "Post", "put": "Put", "delete": "Delete"}[hd.Method], h)
 		} else {
 			fmt.Fprintf(b, "$server->%s('/h%d/{id}', function ($req, $res) {\n  $out = \"\";\n  $id = $req->header(\"X-Id\");\n  $k = (int)$req->header(\"X-K\");\n", hd.Method, h)
 		}
@@ -437,10 +439,12 @@ func request(w *W, i int) *http.Request {
 		target = "/a" + target
 	}
 	var form url.Values
-	method := "GET"
-	if hd.Method == "post" {
-		method = "POST"
+	method := strings.ToUpper(hd.Method)
+	if hd.Method == "post" || hd.Method == "put" {
 		form = url.Values{"p": {"p" + q.X}}
+	}
+	if hd.Method == "get" && q.Head {
+		method = "HEAD" // routed to the GET route
 	}
 	return hx.NewRequest(method, target, form, map[string]string{"c": "c" + q.X},
 		map[string]string{"X-T": "t" + q.X, "X-Id": fmt.Sprint(i), "X-K": fmt.Sprint(q.K), "User-Agent": "ua-" + q.X, "Referer": "http://ref.local/" + q.X})
